@@ -26,7 +26,7 @@ COMMON_ASSUME = ["S-lex: token types/values are what the real Pygments lexer emi
 
 
 def run_c01(ctx):
-    jobs, n = _jobs(ctx, "layout", "h_layout", lambda lang, label: not label.startswith(("cmt-", "cmt1-")))
+    jobs, n = _jobs(ctx, "layout", "h_layout", lambda lang, label: not label.startswith(("cmt-", "cmt1-", "cmtx-")))
     ctx.bounds.update({"skeletons": f"{n} canonical programs over 7 languages ({ctx.tier} family: header kinds, brace styles, parameter styles, statement mixes, classes, nesting positions/depth <= 3, body lengths around 15/30/60)",
                        "layout": "<= 10 line gaps per skeleton, each any integer >= 0 (simultaneously); indentation columns of up to 5 levels any strictly increasing integers >= 1"})
     ctx.assumptions += COMMON_ASSUME
@@ -34,10 +34,10 @@ def run_c01(ctx):
 
 
 def run_c04(ctx):
-    jobs, n = _jobs(ctx, "comments", "h_layout", lambda lang, label: not label.startswith(("cmt-", "cmt1-")))
-    jobs2, n2 = _jobs(ctx, "gaps-vs-base", "h_layout", lambda lang, label: not label.startswith(("long-", "cmt-", "cmt1-")))
+    jobs, n = _jobs(ctx, "comments", "h_layout", lambda lang, label: not label.startswith(("cmt-", "cmt1-", "cmtx-")))
+    jobs2, n2 = _jobs(ctx, "gaps-vs-base", "h_layout", lambda lang, label: not label.startswith(("long-", "cmt-", "cmt1-", "cmtx-")))
     # programs whose SOURCE TEXT carries comments, lexed by the real lexer, against generator ground truth (which only looks at code tokens)
-    jobs3, n3 = _jobs(ctx, "layout", "h_layout", lambda lang, label: label.startswith(("cmt-", "cmt1-")))
+    jobs3, n3 = _jobs(ctx, "layout", "h_layout", lambda lang, label: label.startswith(("cmt-", "cmt1-", "cmtx-")))
     jobs2 = jobs2 + jobs3
     ctx.bounds["commented source"] = f"{n3} programs rendered with comment-only lines (column 1 and indented), block comments and trailing comments in the text, lexed by the real lexer; gaps/columns symbolic"
     ctx.bounds.update({"skeletons": f"{n} canonical programs over 7 languages", "insertions": "a comment-only line (with leading whitespace token) above every chosen line boundary AND a trailing comment (line or block style) plus trailing whitespace after every line, simultaneously; in addition any number >= 0 of blank lines at <= 10 boundaries; second family: blank lines only",
